@@ -136,7 +136,7 @@ AssembleFails(e) ==
                                                  /\ e.twin.out.unused = out.unused) ELSE {})
         \cup (IF e.twin.by = "rot" THEN Chk("C02:RotInvAssembly", SameOutcome(out, e.twin.out, FALSE)) ELSE {})
         \cup (IF e.twin.by = "case" THEN Chk("C18:CaseInvAssembly", SameOutcome(out, e.twin.out, TRUE)) ELSE {})
-        \cup (IF e.twin.by = "rc" /\ out.kind = "product" /\ g.unused = {} /\ ~g.pal
+        \cup (IF e.twin.by = "rc" /\ out.kind = "product" /\ g.unused = {}
               THEN Chk("C12:StrandSymAssembly", e.twin.out.kind = "product" /\ CycEq(e.twin.out.seq, RC(out.seq))) ELSE {})
         \cup (IF e.twin.by = "swap" /\ out.kind = "product" /\ ProductAllowed(g)
               THEN LET nd == DecompModule(e.twin.mod.seq, e.enz)  j == e.twin.pos IN
@@ -183,7 +183,7 @@ NextLevelFails(e) ==
               /\ r.exc = "" /\ r.valid /\ NoRaise(r) /\ nd.ok
               /\ r.up = nd.up /\ r.down = nd.down /\ r.tgt = nd.tgt)
           \cup Chk("C11:TargetContainsInserts", r.valid /\ NoRaise(r) /\ OccursLin(inserts, r.tgt))
-          \cup (IF e.second.has /\ ~Eq(r.up, RC(r.up))        \* (palindromic start overhang: permissive reading, DESIGN 5)
+          \cup (IF e.second.has
                 THEN Chk("C11:AssemblesAtNextLevel", e.second.out.kind = "product" /\ OccursCirc(r.tgt, e.second.out.seq))
                 ELSE {})
 
